@@ -86,6 +86,22 @@ Theorem C03_pkesk_encrypt_ok_length : forall rsa_enc ecdh_gen hash aes_wrap k se
   pkesk_encrypt rsa_enc ecdh_gen hash aes_wrap k seed alg sk = Ok e -> exists n, key_octets alg = Some n /\ length sk = n.
 Proof. exact pkesk_encrypt_ok_length. Qed.
 Print Assumptions C03_pkesk_encrypt_ok_length.
+(* the passphrase path refuses such a key too (SKESessionKeyV4.encrypt_sk; repair 29ef9ad of C03/sessionkey-length-unchecked on
+   this path: the data would be keyed with a key that does not fit the cipher the message names) *)
+Theorem C03_skesk_wrong_length_refused : forall cfb_enc s2k symalg sp pass sk n,
+  key_octets symalg = Some n -> length sk <> n -> skesk_encrypt cfb_enc s2k symalg sp pass sk = Raise EEncrypt.
+Proof. exact skesk_encrypt_wrong_length. Qed.
+Print Assumptions C03_skesk_wrong_length_refused.
+Theorem C03_skesk_encrypt_ok_length : forall cfb_enc s2k symalg sp pass sk e,
+  skesk_encrypt cfb_enc s2k symalg sp pass sk = Ok e -> exists n, key_octets symalg = Some n /\ length sk = n.
+Proof. exact skesk_encrypt_ok_length. Qed.
+Print Assumptions C03_skesk_encrypt_ok_length.
+(* regression: before the repair a 16-octet key went out under the AES-256 identifier *)
+Theorem C03_skesk_any_length_old_refuted :
+  (exists e, skesk_encrypt_gen_old t_cfb_enc t_s2k 9 9 t_spec1 [112] (repeat 1 16) = Ok e) /\
+  skesk_encrypt t_cfb_enc t_s2k 9 t_spec1 [112] (repeat 1 16) = Raise EEncrypt.
+Proof. split; [eexists|]; vm_compute; reflexivity. Qed.
+Print Assumptions C03_skesk_any_length_old_refuted.
 
 (* ---------- PKCS#5 ---------- *)
 Theorem C03_pad_unpad : forall m, pkcs5_unpad (pkcs5_pad m) = Some m.
@@ -94,6 +110,26 @@ Print Assumptions C03_pad_unpad.
 Theorem C03_pad_eq_rfc : forall m, pkcs5_pad m = rfc_pad8 m /\ rfc_padded_ok (pkcs5_pad m) m.
 Proof. exact pad_eq_rfc. Qed.
 Print Assumptions C03_pad_eq_rfc.
+(* the recipient side takes off ANY PKCS#5 padding, not only PGPy's own: RFC 6637 section 8 lets a sender hide the key
+   size by padding m to 40 octets (21 / 13 / 5 octets of padding on the 19 / 27 / 35 octets of an AES-128 / 192 / 256 m) *)
+Theorem C03_unpad_padded : forall m n, 1 <= n -> pkcs5_unpad (m ++ repeat n (Z.to_nat n)) = Some m.
+Proof. exact unpad_padded. Qed.
+Print Assumptions C03_unpad_padded.
+Theorem C03_unpad_pad40 : forall m, (length m < 40)%nat ->
+  pkcs5_unpad (rfc_pad40 m) = Some m /\ length (rfc_pad40 m) = 40%nat.
+Proof. exact unpad_pad40. Qed.
+Print Assumptions C03_unpad_pad40.
+Theorem C03_pad40_rfc_amounts : forall m,
+  (length m = 19%nat -> rfc_pad40 m = m ++ repeat 21 21) /\ (length m = 27%nat -> rfc_pad40 m = m ++ repeat 13 13) /\
+  (length m = 35%nat -> rfc_pad40 m = m ++ repeat 5 5).
+Proof. exact unpad_pad40_rfc_amounts. Qed.
+Print Assumptions C03_pad40_rfc_amounts.
+(* regression (repair 830c52d): the unpadder used before refused the 40-octet forms of AES-128 and AES-192 keys *)
+Theorem C03_unpad_old_pad40_refuted :
+  pkcs5_unpad_old (rfc_pad40 (repeat 7 19)) = None /\ pkcs5_unpad_old (rfc_pad40 (repeat 8 27)) = None /\
+  pkcs5_unpad (rfc_pad40 (repeat 7 19)) = Some (repeat 7 19) /\ pkcs5_unpad (rfc_pad40 (repeat 8 27)) = Some (repeat 8 27).
+Proof. exact unpad_old_pad40_refuted. Qed.
+Print Assumptions C03_unpad_old_pad40_refuted.
 
 (* ---------- RFC 6637 ---------- *)
 Theorem C03_ecdh_param_eq_rfc6637 : forall oid halg kek fp, ecdh_param oid halg kek fp = rfc_param oid halg kek fp.
@@ -122,6 +158,21 @@ Theorem C03_pkesk_roundtrip : forall rsa_bits rsa_enc rsa_dec ecdh_gen ecdh_shar
             pkesk_decrypt_sk rsa_bits rsa_dec ecdh_shared hash aes_unwrap k (k_alg k) c = Ok (alg, sk).
 Proof. exact pkesk_roundtrip. Qed.
 Print Assumptions C03_pkesk_roundtrip.
+
+(* what an RFC 6637 sender that hides the key size writes (m padded to `total` octets before the key wrap; 40 in the RFC's
+   example) is read back by decrypt_sk as well: every cipher with a key size, every total that leaves room for one octet *)
+Theorem C03_pkesk_padded_roundtrip : forall rsa_bits rsa_dec ecdh_gen ecdh_shared hash aes_wrap aes_unwrap,
+  ecdh_agrees ecdh_gen ecdh_shared -> wrap_inverse aes_wrap aes_unwrap ->
+  forall total k seed alg sk n e,
+  sym_valid alg = true -> key_octets alg = Some n -> length sk = n -> Z.of_nat n + 3 < total ->
+  pkesk_encrypt_to ecdh_gen hash aes_wrap total k seed alg sk = Ok e ->
+  exists c, e = PK (k_id k) 18 c /\
+            pkesk_decrypt_sk rsa_bits rsa_dec ecdh_shared hash aes_unwrap k 18 c = Ok (alg, sk).
+Proof. exact pkesk_padded_roundtrip. Qed.
+Print Assumptions C03_pkesk_padded_roundtrip.
+Theorem C03_pad_to_40_eq_rfc : forall m, pkcs5_pad_to 40 m = rfc_pad40 m.
+Proof. exact pad_to_40. Qed.
+Print Assumptions C03_pad_to_40_eq_rfc.
 
 (* ---------- symmetric-key encrypted session key ---------- *)
 (* any algorithm octet in front of the session key (PGPy writes its own cipher; others write a different one) *)
